@@ -13,6 +13,7 @@ import (
 	"fmt"
 	"os"
 	"path/filepath"
+	"runtime/debug"
 	"sort"
 	"strconv"
 	"strings"
@@ -209,8 +210,19 @@ func Register[C any](r *Run, d Def[C]) {
 		if err := json.Unmarshal(raw, &c); err != nil {
 			return &Verdict{Fail: "bad replay case: " + err.Error()}
 		}
-		return d.Run(c)
+		return safeRun(d.Run, c)
 	}
+}
+
+// safeRun turns a panic escaping the code under test into a failed verdict, so
+// that it is shrunk and saved like any other violation.
+func safeRun[C any](f func(C) *Verdict, c C) (v *Verdict) {
+	defer func() {
+		if r := recover(); r != nil {
+			v = &Verdict{Fail: fmt.Sprintf("panic while running the case: %v\n%s", r, debug.Stack())}
+		}
+	}()
+	return f(c)
 }
 
 // Check runs d under rapid for the tier's number of cases (split across shards).
@@ -246,7 +258,7 @@ func Check[C any](t *testing.T, r *Run, d Def[C], quickN, thoroughN int) {
 			b, _ := json.Marshal(replayFile{r.Prop, d.Name, "worker died while executing this case", raw})
 			os.WriteFile(jp, b, 0o644)
 		}
-		v := d.Run(c)
+		v := safeRun(d.Run, c)
 		if v == nil {
 			v = &Verdict{}
 		}
